@@ -110,7 +110,9 @@ func (m *SyncRun) End(c *vnet.Cluster) {
 			}
 			a := mine[0]
 			m.inc("decisions-checked")
-			if a.Synced {
+			if a.Synced && !validator {
+				m.inc("observer-blocks-from-relay")
+			} else if a.Synced {
 				m.fail(c, "decided-by-ledger-sync", "n%d got height %d from the ledger, not from consensus", n.ID, h)
 			}
 			if a.View != 0 && validator {
